@@ -508,3 +508,7 @@ mod tests {
         quickcheck(prop as fn(_))
     }
 }
+
+#[cfg(libp2p_verif)]
+#[path = "verif_tpt.rs"]
+pub mod verif_tpt;
